@@ -191,10 +191,8 @@ pub fn static_audit(cfg: &Cfg, src: &str, case: &Value) -> Vec<Violation> {
                                 "phi arguments are versions of the same variable",
                             );
                         }
-                        let Some(v) = arg.version() else {
-                            push("phi-unversioned-argument", format!("block {b}: `{arg:?}`"), "versioned phi arguments");
-                            continue;
-                        };
+                        // An unversioned argument stands for "not assigned on that incoming path".
+                        let Some(v) = arg.version() else { continue };
                         if !declared.contains(arg) {
                             push(
                                 "undeclared-version",
@@ -342,7 +340,13 @@ pub fn path_audit(cfg: &Cfg, src: &str, unroll: usize, case: &Value, max_paths: 
                         }
                     }
                     None => {
-                        f.cur.insert(k, Cur::PhiWithoutArgument(*v));
+                        // Not assigned on this path: fine if the phi says so explicitly (an
+                        // unversioned argument), otherwise later reads are tied to other paths.
+                        if args.iter().any(|a| a.version().is_none()) {
+                            f.cur.insert(k, Cur::Version(*v));
+                        } else {
+                            f.cur.insert(k, Cur::PhiWithoutArgument(*v));
+                        }
                     }
                 }
                 continue;
@@ -582,6 +586,7 @@ pub fn run(run: &Run) {
               for init_array in [true, false] {
                 let case = json!({"kind": "ssa", "max_stmts": max, "index": i, "atoms": atoms, "conds": conds, "unroll": unroll, "init_array": init_array});
                 let def = build(skel, &atoms, &conds, true, init_array);
+                run.watch(&case);
                 let (violations, outcome) = check_def(&def, unroll, &case);
                 run.eval(1);
                 match outcome {
